@@ -101,14 +101,14 @@ package sortints
 //@   ensures forall k in 0..len(result): 0 <= result[k] && result[k] < n && !in(result[k], a)
 //@   ensures forall x in 0..n: !in(x, a) ==> in(x, result)
 //@   loop 1
-//@     invariant 0 <= i && (i <= n || n < 0) && 0 <= aIndex && aIndex <= len(a)
+//@     invariant 0 <= i && (i <= n || (n < 0 && i == 0 && len(b) == 0)) && 0 <= aIndex && aIndex <= len(a)
 //@     invariant sorted(b)
 //@     invariant forall k in 0..len(b): 0 <= b[k] && b[k] < i && !in(b[k], a)
 //@     invariant forall x in 0..i: !in(x, a) ==> in(x, b)
 //@     invariant forall p in 0..aIndex: a[p] < i
 //@     decreases n - i + len(a) - aIndex
 //@   loop 2
-//@     invariant 0 <= i && (i <= n || n < 0) && 0 <= aIndex && aIndex <= len(a)
+//@     invariant 0 <= i && (i <= n || (n < 0 && i == 0 && len(b) == 0)) && 0 <= aIndex && aIndex <= len(a)
 //@     invariant sorted(b)
 //@     invariant forall k in 0..len(b): 0 <= b[k] && b[k] < i && !in(b[k], a)
 //@     invariant forall x in 0..i: !in(x, a) ==> in(x, b)
